@@ -193,3 +193,22 @@ Theorem C17_source_span_name :
   /\ Gen_attr.gen_block_async_true = true.
 Proof. exact source_span_name. Qed.
 Print Assumptions C17_source_span_name.
+
+(** Which non-async functions count as "returning a boxed future" (the body then runs inside the span on every poll instead of
+    the span merely enclosing the construction of the future): the source tests whether the tail call's callee path, written as
+    its segment identifiers joined by `::`, ends with the text `Box::pin` (generated obligation), and under that rule the kind
+    does not depend on how the path is qualified: `std::boxed::Box::pin`, `::std::boxed::Box::pin`, `alloc::boxed::Box::pin`,
+    `Box::<_>::pin` keep the function's async kind.  The corpus terms compute [f_kind] with [kind_of_tail] from the callee as
+    written and the suffix the translator read. *)
+Theorem C17_source_box_pin :
+  Gen_attr.gen_box_pin_suffix = Some box_pin_suffix
+  /\ Gen_attr.gen_path_to_string_idents = true
+  /\ Gen_attr.gen_tail_async_block = true
+  /\ Gen_attr.gen_tail_helper_call = true.
+Proof. exact source_box_pin. Qed.
+Print Assumptions C17_source_box_pin.
+
+Theorem C17_box_pin_qualification_irrelevant : forall pre k,
+  kind_of_tail box_pin_suffix (pre ++ (sBox :: sPin :: nil)) k = k.
+Proof. exact kind_of_tail_qualified. Qed.
+Print Assumptions C17_box_pin_qualification_irrelevant.
